@@ -116,6 +116,12 @@ func BuildHandshake(s Source, keys []refsrv.RSAKeyJSON, corner Corner, inject bo
 	for i, n := 0, s.Int("fp_after", 3); i < n; i++ {
 		hs.ExtraFPAfter = append(hs.ExtraFPAfter, int64(binary.LittleEndian.Uint64(s.Bytes("fp", 8))))
 	}
+	// the network may deliver a reply in two segments (cut inside the length prefix, the header or the body)
+	if s.Int("segmented", 3) == 0 {
+		for i := 0; i < 3; i++ {
+			hs.Splits = append(hs.Splits, []int{0, 1, 2, 3, 4, 5, 12, 24, 40, 41, 100, 1 << 20}[s.Int("split", 12)])
+		}
+	}
 	sc.HS = hs
 	needInject := inject || corner.Field == "nonce" || corner.Field == "new_nonce" || corner.Field == "new_nonce_hash1" || corner.Field == "rsa_ciphertext" || corner.Field == "g_b" || corner.Field == "g_ab"
 	if needInject {
